@@ -10,7 +10,10 @@ use crate::{
 };
 use tracing::{trace, warn};
 
+#[cfg(not(feature = "verif-hooks"))]
 use instant::{Duration, Instant};
+#[cfg(feature = "verif-hooks")]
+use {crate::verif_hooks::Instant, instant::Duration};
 use std::collections::vec_deque::Drain;
 use std::collections::{HashMap, HashSet, VecDeque};
 use std::convert::TryFrom;
@@ -39,7 +42,10 @@ const QUALITY_REPORT_INTERVAL: Duration = Duration::from_millis(200);
 /// Number of old checksums to keep in memory
 pub const MAX_CHECKSUM_HISTORY_SIZE: usize = 32;
 
+#[cfg_attr(feature = "verif-hooks", allow(unreachable_code))]
 fn millis_since_epoch() -> u128 {
+    #[cfg(feature = "verif-hooks")]
+    return crate::verif_hooks::millis_since_epoch();
     #[cfg(not(target_arch = "wasm32"))]
     {
         std::time::SystemTime::now()
